@@ -219,7 +219,7 @@ def make_eval(exe):
         if bad:
             f = dict(case)
             f["what"] = bad
-            f["stderr"] = r.err[:400].decode(errors="replace")
+            f["stderr_text"] = r.err[:400].decode(errors="replace")
             return f
         return None
     return ev
@@ -231,8 +231,8 @@ def snapshot_dir(td):
         p = os.path.join(td, n)
         s = os.lstat(p)
         if stat.S_ISREG(s.st_mode):
-            with open(p, "rb") as f:
-                snap[n] = (s.st_ino, stat.S_IMODE(s.st_mode), s.st_mtime_ns, f.read())
+            # no read here: reading a file moves its access time, which the program under test copies to its output
+            snap[n] = (s.st_ino, stat.S_IMODE(s.st_mode), s.st_mtime_ns, s.st_size)
         else:
             snap[n] = (s.st_ino, stat.S_IFMT(s.st_mode))
     return snap
@@ -356,7 +356,7 @@ def check(td, c, facts, exp, r):
 
 def replay_case(case):
     exe = core.build("rel")
-    c = {k: v for k, v in case.items() if k not in ("what", "stderr")}
+    c = {k: v for k, v in case.items() if k not in ("what", "stderr_text")}
     return make_eval(exe)(c, core.Stats())
 
 
